@@ -134,7 +134,7 @@ theorem slice_write_inv (c : Ctl) (v : Slice) (c' : Ctl) (hstep : stepC c (.slic
   have hv1 : v ∈ c1.slices := mem_upsertBy_self _ _ _
   -- before the handler runs only `v` itself is out of date
   have h1 : InvExcept c1 (fun x => x = v) := by
-    refine ⟨?_, ?_, ?_, hinv.smapSome, hinv.smapOnly, hinv.index⟩
+    refine ⟨?_, ?_, ?_, hinv.smapSome, hinv.smapOnly, hinv.index, hinv.nodup⟩
     · intro x hx hs hne
       cases mem_upsertBy _ _ _ _ hx with
       | inl h => exact absurd h hne
@@ -207,7 +207,7 @@ theorem slice_delete_inv (c : Ctl) (ns name : String) (c' : Ctl) (hstep : stepC 
     show Inv (runAll c1 [Ev.slDel o])
     have : runAll c1 [Ev.slDel o] = sliceDelete c1 o := by simp [runAll, runEvents, handle]
     rw [this, sliceDelete_eq]
-    refine ⟨?_, ?_, ?_, hinv.smapSome, hinv.smapOnly, ?_⟩
+    refine ⟨?_, ?_, ?_, hinv.smapSome, hinv.smapOnly, ?_, fun h per hl => nodupKeys_cacheDelete c.cache o.host o.name h per (hinv.nodup h) hl⟩
     · intro x hx hs _
       have hxc := ((hmem x).mp hx).1
       have hor : x.host ≠ o.host ∨ x.name ≠ o.name := by
@@ -358,7 +358,7 @@ theorem svc_write_inv (c : Ctl) (v : Svc) (c' : Ctl) (hstep : stepC c (.svc v) =
   have hf := refreshIndex_fields c2 v
   have hsm : ∀ h, alookup h c2.smap = if h = v.host then some v else alookup h c.smap := by
     intro h; exact alookup_aset _ _ _ _
-  refine ⟨?_, ?_, ?_, ?_, ?_, ?_⟩
+  refine ⟨?_, ?_, ?_, ?_, ?_, ?_, by rw [hf.2.2.2.2.2.2.1]; exact hinv.nodup⟩
   · intro x hx hs _
     rw [hf.1] at hx
     unfold EntryOK
@@ -452,7 +452,7 @@ theorem svc_delete_inv (c : Ctl) (ns name : String) (c' : Ctl) (hstep : stepC c 
     have hsm : ∀ h, alookup h (aerase o.host c.smap) = if h = o.host then none else alookup h c.smap :=
       fun h => alookup_aerase _ _ _
     have hcur : alookup o.host c.smap = some o := hinv.smapSome o ho
-    refine ⟨?_, hinv.noForeign, fun x hx _ => hinv.parked x hx (fun hf => hf), ?_, ?_, ?_⟩
+    refine ⟨?_, hinv.noForeign, fun x hx _ => hinv.parked x hx (fun hf => hf), ?_, ?_, ?_, hinv.nodup⟩
     · intro x hx hs _
       unfold EntryOK
       show cacheEntry c.cache x.host x.name = buildSlice c.pods c.nodes c.byIP (alookup x.host (aerase o.host c.smap)) x
